@@ -21,14 +21,19 @@ EXTENDS Integers, Sequences, FiniteSets, TLC, Json
 Real == {"Main", "A", "B"}
 Importable == {"A", "B", "Ghost"}
 
-VARIABLES imports, misnamedA, tp, rp, impls, up
-vars == <<imports, misnamedA, tp, rp, impls, up>>
+VARIABLES imports, misnamedA, tp, rp, impls, up, useform
+vars == <<imports, misnamedA, tp, rp, impls, up, useform>>
+\* tp may also be a builtin type ("int32", "vec" = Vec[int32]): never local to any package, never needs an import.
+\* useform: "lit"  the use site builds the value with a struct literal  tp::T { v: 1 }
+\*          "assoc" it only uses three-segment paths  tp::T::mk()  and  rp::R::m(x)
+BuiltinTypes == {"int32", "vec"}
 
 Init ==
   /\ imports \in [Real -> SUBSET Importable]
   /\ \A p \in Real : p \notin imports[p]
   /\ misnamedA \in BOOLEAN
-  /\ tp \in Real /\ rp \in Real
+  /\ tp \in Real \cup BuiltinTypes /\ rp \in Real
+  /\ useform \in {"lit", "assoc"}
   /\ impls \in {S \in SUBSET Real : Cardinality(S) <= 2}
   /\ up \in Real
 Next == UNCHANGED vars
@@ -47,16 +52,16 @@ DiscoveryErrors == (IF Missing THEN {"missing"} ELSE {}) \cup (IF Mismatch THEN 
 
 \* ---------------------------------------------------------------- naming
 Names(p) == \* packages whose items package p names in its source
-  (IF p \in impls THEN {tp, rp} ELSE {}) \cup (IF p = up THEN {tp, rp} ELSE {})
+  ((IF p \in impls THEN {tp, rp} ELSE {}) \cup (IF p = up THEN {tp, rp} ELSE {})) \cap Real
 Unresolved == \E p \in Reach : \E q \in Names(p) : q # p /\ q \notin imports[p]
-Orphan == \E p \in Reach \cap impls : rp # p /\ tp # p
+Orphan == \E p \in Reach \cap impls : rp # p /\ tp # p          \* a builtin tp is never equal to p
 Duplicate == Cardinality(Reach \cap impls) >= 2
 \* a trait call on T with no implementation loaded at all
 NoImpl == up \in Reach /\ Reach \cap impls = {}
 TypeErrors == (IF Unresolved THEN {"unresolved"} ELSE {}) \cup (IF Orphan THEN {"orphan"} ELSE {})
               \cup (IF Duplicate THEN {"duplicate"} ELSE {}) \cup (IF NoImpl THEN {"noimpl"} ELSE {})
 \* items defined in a package that is not loaded cannot be named by anyone
-DefsLoaded == tp \in Reach /\ rp \in Reach
+DefsLoaded == (tp \in BuiltinTypes \/ tp \in Reach) /\ rp \in Reach
 Viol == IF DiscoveryErrors # {} THEN DiscoveryErrors ELSE TypeErrors
 
 \* ---------------------------------------------------------------- what the rules guarantee
@@ -66,6 +71,6 @@ OrphanRuleImpliesCoherence ==
 \* the meaning of the call does not depend on load order: when accepted there is exactly one implementation in the project
 UniqueMeaning == (Viol = {} /\ up \in Reach) => Cardinality(Reach \cap impls) = 1
 
-Emit == PrintT(<<"CONFIG", ToJson([imports |-> imports, misnamedA |-> misnamedA, tp |-> tp, rp |-> rp, impls |-> impls, up |-> up,
+Emit == PrintT(<<"CONFIG", ToJson([imports |-> imports, misnamedA |-> misnamedA, tp |-> tp, rp |-> rp, impls |-> impls, up |-> up, useform |-> useform,
                                     reach |-> Reach, viol |-> Viol])>>)
 =============================================================================
